@@ -7,8 +7,11 @@ delete tag, set config option, set last revision info, lock_write, unlock, reope
 read-everything (tip, revno, tags, option, get_parent_map incl. a ghost key, has_revision,
 all_revision_ids, revision trees, revision record, revno<->revid, merge-sorted history,
 graph heads, stacked-on, lock status), pull FROM the subject into a local branch} up to
-length 2 (quick) / 3 (thorough), plus a core sub-alphabet up to length 4 (quick: 5 operations,
-thorough: 9), on 1 (quick) / 2 (thorough)
+length 2 (quick) / 3 (thorough), a core sub-alphabet up to length 3 / 4, and - because caches
+only survive inside one lock - lock_write followed by every word of length 3 (quick) / <= 4
+(thorough) over {commit, pull-src, fetch, set-tag, read-everything, unlock} and of length 4 / 5
+over {commit, pull-src, read-everything}; the reads include
+the versioned-file level (revisions/inventories/texts keys); on 1 (quick) / 2 (thorough)
 generated template histories, is executed on identical mc.vfs stores three times: on the
 local ``vfs+...`` URL, through an in-process smart server (real client medium, protocol v3,
 real SmartServerPipeStreamMedium + request handlers, RemoteBranch/RemoteRepository) and
@@ -32,12 +35,13 @@ TECHNIQUE = ("bounded exhaustive operation-sequence search, differential: local 
 
 SIDES = ("local", "v3", "v2")
 BRANCHES = ("tgt", "src", "div", "oth")
-KEYS = (b"r1", b"r2", b"r3", b"d2", b"c0", b"c1", b"ghost")
+KEYS = (b"r1", b"r2", b"r3", b"d2", b"c0", b"c1", b"c2", b"c3", b"c4", b"ghost")
 
 FULL = ("commit", "commit-co", "pull-src", "pull-div", "pull-div-ow", "push-src", "push-div-ow", "fetch-r3",
         "set-tag", "del-tag", "set-opt", "set-tip", "lock", "unlock", "reopen", "obs", "oth-pull")
 CORE = ("commit", "pull-src", "pull-div-ow", "push-src", "set-tag", "del-tag", "lock", "unlock", "obs")
-QCORE = ("pull-src", "set-tag", "lock", "unlock", "obs")      # quick tier: deeper on fewer operations
+QCORE = ("lock", "unlock", "commit", "pull-src", "set-tag", "obs")       # quick tier core, <= 3
+LOCKED = ("commit", "pull-src", "fetch-r3", "set-tag", "obs", "unlock")   # after an initial lock_write
 
 # ---- template histories --------------------------------------------------------------------------
 _TEMPLATES = {}
@@ -200,6 +204,12 @@ def _observe(side):
         out.append(("pmap", _try(lambda: sorted(repo.get_parent_map(KEYS).items()))))
         out.append(("has", _try(lambda: [repo.has_revision(k) for k in KEYS])))
         out.append(("all", _try(lambda: sorted(repo.all_revision_ids()))))
+        # the versioned-file level (served by the VFS-backed real repository behind a RemoteRepository)
+        out.append(("vf-revisions", _try(lambda: sorted(repo.revisions.keys()))))
+        out.append(("vf-revisions-pmap", _try(lambda: sorted(
+            repo.revisions.get_parent_map([(k,) for k in KEYS]).items()))))
+        out.append(("vf-inventories", _try(lambda: sorted(repo.inventories.keys()))))
+        out.append(("vf-texts", _try(lambda: sorted(repo.texts.keys()))))
         out.append(("tree", _try(lambda: mw.dump_tree(repo.revision_tree(tip)))))
         out.append(("tree-r1", _try(lambda: mw.dump_tree(repo.revision_tree(b"r1")))))
 
@@ -488,27 +498,50 @@ def template_dump(hist):
     return _TD[hist]
 
 
+def locked_sequences(n):
+    """[lock] followed by every word of length n over LOCKED the lock-depth model enables."""
+    return [s for s in sequences(("lock",) + LOCKED, n + 1, n + 1)
+            if s[0] == "lock" and "lock" not in s[1:]]
+
+
+DEEP = ("commit", "pull-src", "obs")
+
+
+def deep_sequences(n):
+    return [("lock",) + w for w in itertools.product(DEEP, repeat=n)]
+
+
 def plan(ctx):
-    """quick: FULL <= 2 and QCORE <= 4 on the linear history;
-    thorough: FULL <= 3 and CORE <= 4 on the linear history, FULL <= 2 on the merge history."""
+    """quick: FULL <= 2, QCORE <= 3, lock_write + LOCKED^3, lock_write + DEEP^4 on the linear history;
+    thorough: FULL <= 3, CORE <= 4, lock_write + LOCKED^<=4 on the linear history, FULL <= 2 + lock_write +
+    LOCKED^3 on the merge history."""
     items = []
     seen = set()
 
-    def add(hist, alphabet, maxlen):
-        for s in sequences(alphabet, maxlen):
+    def add(hist, seqs):
+        for s in seqs:
             if (hist, s) not in seen:
                 seen.add((hist, s))
                 items.append((hist, s))
 
     if not ctx.thorough:
-        table = [("linear", "full", FULL, 2), ("linear", "quick-core", QCORE, 4)]
+        table = [("linear", "FULL <= 2", sequences(FULL, 2)),
+                 ("linear", "QCORE <= 3", sequences(QCORE, 3)),
+                 ("linear", "lock + LOCKED^3", locked_sequences(3)),
+                 ("linear", "lock + {commit,pull-src,obs}^4", deep_sequences(4))]
     else:
-        table = [("linear", "full", FULL, 3), ("linear", "core", CORE, 4), ("merge", "full", FULL, 2),
-                 ("merge", "quick-core", QCORE, 4)]
-    for hist, _n, alphabet, maxlen in table:
-        add(hist, alphabet, maxlen)
+        table = [("linear", "FULL <= 3", sequences(FULL, 3)),
+                 ("linear", "CORE <= 4", sequences(CORE, 4)),
+                 ("linear", "lock + LOCKED^3", locked_sequences(3)),
+                 ("linear", "lock + LOCKED^4", locked_sequences(4)),
+                 ("linear", "lock + {commit,pull-src,obs}^5", deep_sequences(5)),
+                 ("merge", "FULL <= 2", sequences(FULL, 2)),
+                 ("merge", "lock + LOCKED^3", locked_sequences(3))]
+    for hist, _n, seqs in table:
+        add(hist, seqs)
     items.sort(key=lambda x: (len(x[1]), x[0], x[1]))
-    return items, {"enumerated": [{"history": h, "alphabet": list(a), "max_len": m} for h, _n, a, m in table],
+    return items, {"enumerated": [{"history": h, "sequences": n, "count": len(q)} for h, n, q in table],
+                   "alphabets": {"FULL": list(FULL), "CORE": list(CORE), "QCORE": list(QCORE), "LOCKED": list(LOCKED), "DEEP": list(DEEP)},
                    "sides": list(SIDES)}
 
 
